@@ -74,6 +74,8 @@ func main() {
 		h.GenC17conv(rng, thorough, emit)
 	case "cli":
 		h.GenCli(rng, thorough, emit)
+	case "sm":
+		h.GenSM(rng, thorough, emit)
 	case "trip":
 		h.GenTrip(rng, thorough, emit)
 	case "life":
